@@ -12,7 +12,7 @@
 From BSV Require Import Base.Hex Prim.Num Prim.Secp256k1 Prim.Der Prim.Sha256 Prim.Ripemd160.
 From BSV Require Import Model.Opcodes Model.Script Model.VarInt Model.Tx Model.HashApi Model.Sighash Model.Ecdsa Model.Sig
   Model.Interp Model.InterpSig.
-From BSV Require Import Spec.ScriptTok Spec.SighashWire Spec.Bip143 Spec.LegacySighash Spec.SpendSpec.
+From BSV Require Import Spec.ScriptTok Spec.SighashWire Spec.Bip143 Spec.LegacySighash Spec.SpendSpec Spec.SpendTwo.
 
 Definition out3 (impl spec known : string) : string := impl +++ "|" +++ spec +++ "|" +++ known.
 Definition FP := fast_prims.
@@ -101,7 +101,12 @@ Definition spec_spend (t : tx) (i : nat) (es : list ext_entry) : string :=
           | (Reject, false) => "ERR~OK:,;*"
           | (AcceptOrReject, true) => "ERR~OK:01,;*"
           | (AcceptOrReject, false) => "ERR~OK:,;*~OK:01,;*"
-          | (Unspecified, _) => no_panic
+          | (Unspecified, _) =>
+              match expected_two H_spec sec1_decode_fast prim_verify_fast (view_tx t) i amount lock unlock with
+              | Accept => "OK:01,;*"
+              | Reject => "ERR~OK:,;*"
+              | _ => no_panic
+              end
           end
       | _, _ => no_panic
       end
@@ -187,7 +192,7 @@ Fixpoint concat_pushes (ds : list bytes) : outcome bytes :=
 Definition asm_push (d : bytes) : bit := BPush d.
 
 Definition build_spend (kind : string) (txb : bytes) (idx : N) (value : N) (sks : list privkey) (signers : list signer)
-           (seps : list nat) (rawlock rawsub : bytes) (variant : bool) : outcome string :=
+           (seps : list nat) (rawlock : bytes) (rawsubs : list bytes) (variant : bool) : outcome string :=
   let pks := map (pubkey_bytes FP) sks in
   let pk0 := match pks with p :: _ => p | [] => [] end in
   do plain <-
@@ -197,7 +202,8 @@ Definition build_spend (kind : string) (txb : bytes) (idx : N) (value : N) (sks 
        do ps <- concat_pushes pks;
        from_bytes (n2b (80 + N.of_nat (length signers)) :: ps ++ [n2b (80 + N.of_nat (length pks)); xae])
      else from_bytes rawlock);
-  let raw := String.eqb kind "raw" in
+  let rawd := String.eqb kind "rawd" in
+  let raw := String.eqb kind "raw" || rawd in
   do bits <-
     (if variant && negb raw then
        match rev plain with
@@ -207,8 +213,12 @@ Definition build_spend (kind : string) (txb : bytes) (idx : N) (value : N) (sks 
        end
      else Ok plain);
   let locking := insert_seps 0 bits seps in
-  do subscript <- (if raw then from_bytes rawsub
-                   else if has_check locking then Ok (cut_code locking locking) else Err);
+  do subs <- (if raw then
+                (fix go (l : list bytes) : outcome (list (list bit)) :=
+                   match l with [] => Ok [] | x :: r => do a <- from_bytes x; do ar <- go r; Ok (a :: ar) end) rawsubs
+              else if has_check locking then Ok [cut_code locking locking] else Err);
+  let subscript := match subs with x :: _ => x | [] => [] end in
+  let sub_for (j : nat) : list bit := nth (Nat.min j (length subs - 1)) subs [] in
   do t0 <- tx_from_bytes txb;
   let i := clamp_idx t0 idx in
   match nth_error (inputs t0) i with
@@ -216,16 +226,16 @@ Definition build_spend (kind : string) (txb : bytes) (idx : N) (value : N) (sks 
   | Some inp =>
       let inp1 := set_unlocking (set_locking_script (set_satoshis inp value) locking) [] in
       let t1 := set_inputs t0 (set_nth i inp1 (inputs t0)) in
-      let sign_one (s : signer) : outcome bytes :=
+      let sign_one (j : nat) (s : signer) : outcome bytes :=
         match nth_error sks (s_key s) with
         | Some sk => match snd s with
-                     | None => tx_sign_element FP t1 sk (s_flag s) i subscript value
-                     | Some ek => tx_sign_with_k_element FP t1 sk ek (s_flag s) i subscript value
+                     | None => tx_sign_element FP t1 sk (s_flag s) i (sub_for j) value
+                     | Some ek => tx_sign_with_k_element FP t1 sk ek (s_flag s) i (sub_for j) value
                      end
         | None => Err
         end in
-      do sigs <- (fix go (l : list signer) : outcome (list bytes) :=
-                    match l with [] => Ok [] | s :: r => do a <- sign_one s; do ar <- go r; Ok (a :: ar) end) signers;
+      do sigs <- (fix go (j : nat) (l : list signer) : outcome (list bytes) :=
+                    match l with [] => Ok [] | s :: r => do a <- sign_one j s; do ar <- go (S j) r; Ok (a :: ar) end) 0%nat signers;
       do unlocking <-
         (if String.eqb kind "p2pkh" then
            match signers, sigs with
@@ -245,13 +255,20 @@ Definition build_spend (kind : string) (txb : bytes) (idx : N) (value : N) (sks 
                            do q <- go r gr; Ok (p ++ k ++ q)
                        | _, _ => Ok []
                        end) signers sigs;
-           from_bytes ((if String.eqb kind "ms" then [x00] else []) ++ ps));
+           from_bytes ((if String.eqb kind "ms" || rawd then [x00] else []) ++ ps));
       let inp2 := set_unlocking inp1 unlocking in
       let t2 := set_inputs t1 (set_nth i inp2 (inputs t1)) in
       let ext := join "," (mapi_from 0 (fun k _ => if Nat.eqb k i then dec_of_N value +++ "." +++ hex_of_bytes (to_bytes locking) else "n.n")
                                      (inputs t2)) in
+      (* the eight checks of the driver: what is signed verifies (C05) and not against the reversed digest, the encodings of
+         the signature element agree and round-trip (C06), the hash cache is transparent (C04): constants; the finalised
+         script is computed *)
+      let fin := match finalised_script inp2 with
+                 | Ok b => bytes_eqb (to_bytes b) (to_bytes unlocking ++ to_bytes locking)
+                 | _ => false
+                 end in
       Ok (hex_of_bytes (tx_bytes t2) +++ ";" +++ ext +++ ";" +++ hex_of_bytes (to_bytes locking) +++ ";"
-          +++ hex_of_bytes (to_bytes subscript))
+          +++ hex_of_bytes (to_bytes subscript) +++ ";110111" +++ (if fin then "1" else "0") +++ "1")
   end.
 
 Definition run_build (kind txd idx value keys signers seps variant : string) : string :=
@@ -260,10 +277,14 @@ Definition run_build (kind txd idx value keys signers seps variant : string) : s
       match parse_all (parse_signer (length sks)) (split "," signers),
             (if String.eqb variant "0" then Some false else if String.eqb variant "1" then Some true else None) with
       | Some sg, Some vf =>
-          let raw := String.eqb kind "raw" in
+          let raw := String.eqb kind "raw" || String.eqb kind "rawd" in
           let sepso := if raw || String.eqb seps "_" then Some [] else parse_all parse_pos (split "," seps) in
           let rawp := if raw then match split "." seps with
-                                  | [a; b] => match expand a, expand b with Some x, Some y => Some (x, y) | _, _ => None end
+                                  | a :: b :: more =>
+                                      match expand a, parse_all expand (b :: more) with
+                                      | Some x, Some ys => Some (x, ys)
+                                      | _, _ => None
+                                      end
                                   | _ => None end
                       else Some ([], []) in
           match sepso, rawp with
@@ -282,6 +303,11 @@ Definition run_build (kind txd idx value keys signers seps variant : string) : s
 Definition run (op : string) (args : list string) : string :=
   match op, args with
   | "interp.spend", [txd; idx; ext] =>
+      match expand txd, N_of_dec idx, parse_ext ext with
+      | Some txb, Some i, Some es => run_spend txb i es
+      | _, _, _ => "BADARG"
+      end
+  | "interp.spend_steps", [txd; idx; ext] =>        (* stepping = run (property C16): the same answer *)
       match expand txd, N_of_dec idx, parse_ext ext with
       | Some txb, Some i, Some es => run_spend txb i es
       | _, _, _ => "BADARG"
